@@ -11,6 +11,10 @@ package fetcher
 // every subscriber receives its own clone of it, for this duty.
 //@ func (f *Fetcher) Fetch
 //@ props C18 C15
+// the two selection-aware fetchers note not-selected validators in the tracker's bookkeeping (pt.notSelectedPubKeys) and loop
+// over the definitions: they are abstracted on request; that bookkeeping is not part of what Fetch hands out
+//@ havoc f.fetchAggregatorData
+//@ havoc f.fetchContributionData
 //@ callreq f.fetchProposerData: duty.Type == core.DutyProposer && a2 == duty.Slot && a3 == defSet
 //@ callreq f.fetchAttesterData: duty.Type == core.DutyAttester && a2 == duty.Slot && a3 == defSet
 //@ callreq f.fetchAggregatorData: duty.Type == core.DutyAggregator && a2 == duty.Slot && a3 == defSet
